@@ -16,6 +16,8 @@ from ..rules import call_sites, node_calls, require_before, event_facts, trivial
 from ..mutate import mutate, remove_stmts, replace_stmt, replace_expr, parse_stmt
 from ..model import AnalysisError
 
+TECHNIQUE = ("path-sensitive typestate exploration on the CFG (flag x headers x #finish x #close, exception edges included) + "
+             "must-pass-through / dominance with kills, take-and-clear lint, truth-table guard agreement, sibling forwarding agreement")
 EXPLANATION = (
     "Path-sensitive typestate (flag value x headers-delivered x #finish x #close) over every CFG path of "
     "HTTP1Connection._read_message with is_client=False, including exception edges and the duplicated finally; "
